@@ -1548,7 +1548,7 @@ fn api<W: Write>(r: &mut Rng, cfg: &TermCfg, n: usize, o: &mut Out<W>) {
     };
     for _ in 0..n {
         let d = r.below(cfg.max_depth + 1);
-        let t = gen::term(r, cfg, d);
+        let t = if r.chance(1, 40) { Term::Placeholder } else { gen::term(r, cfg, d) };
         term_hist(o, &t);
         check(o, &t);
         // every image index over the same components
@@ -1574,7 +1574,8 @@ const NAME_ARGS: [&str; 36] = [
 fn mutators<W: Write>(r: &mut Rng, cfg: &TermCfg, n: usize, o: &mut Out<W>) {
     for _ in 0..n {
         let d = r.below(3);
-        let t = gen::term(r, cfg, d);
+        // (the generator only puts placeholders inside images; as a term of its own it is an atom like the others)
+        let t = if r.chance(1, 12) { Term::Placeholder } else { gen::term(r, cfg, d) };
         term_hist(o, &t);
         let raw = ser::term(&t, Mode::Raw);
         let arg = if r.chance(3, 4) { r.pick(&NAME_ARGS).to_string() } else { gen::name(r) };
